@@ -69,46 +69,70 @@ Theorem C08_lib_advances_on_one_branch : forall size self evs1 evs2,
 Proof. exact lib_advances_on_one_branch. Qed.
 Print Assumptions C08_lib_advances_on_one_branch.
 
-(** * Blocks that fail when executed (chain.executeBlock error path: Update(best block)) *)
+(** * Blocks that fail when executed (chain.executeBlock error path: Update(best block)) or are
+      refused by IsBlockValid ([ref]; no Update except reorg's own Update(old best)) *)
 
 (** Without failing blocks the extended model is [deliver]. *)
 Theorem C08_deliver_f_no_bad : forall nd blk,
-  deliver_f (fun _ => false) nd blk = (fst (deliver nd blk), FO (snd (deliver nd blk))).
+  deliver_f (fun _ => false) (fun _ => false) nd blk = (fst (deliver nd blk), FO (snd (deliver nd blk))).
 Proof. exact deliver_f_no_bad. Qed.
 Print Assumptions C08_deliver_f_no_bad.
 
 (** With failing blocks a delivery still never lowers the LIB and never replaces a main-chain
     block at or below it. *)
-Theorem C08_deliver_f_lib_mono : forall bad nd blk, lib_no nd <= lib_no (fst (deliver_f bad nd blk)).
+Theorem C08_deliver_f_lib_mono : forall bad ref nd blk, lib_no nd <= lib_no (fst (deliver_f bad ref nd blk)).
 Proof. exact deliver_f_lib_mono. Qed.
 Print Assumptions C08_deliver_f_lib_mono.
 
-Theorem C08_deliver_f_main_stable : forall bad nd blk h b,
-  0 <= h <= lib_no nd -> main_at nd h = Some b -> main_at (fst (deliver_f bad nd blk)) h = Some b.
+Theorem C08_deliver_f_main_stable : forall bad ref nd blk h b,
+  0 <= h <= lib_no nd -> main_at nd h = Some b -> main_at (fst (deliver_f bad ref nd blk)) h = Some b.
 Proof. exact deliver_f_main_stable. Qed.
 Print Assumptions C08_deliver_f_main_stable.
 
-(** Partial: as long as no reorganisation fails in the middle (invalid blocks only as children of
-    the best block), the LIB stays on the main chain. *)
-Theorem C08_lib_on_main_chain_partial_f : forall bad size self evs,
-  no_failed_reorg bad (init_node size self) evs ->
-  lib_on_main (run_f bad (init_node size self) evs) = true.
+(** Partial: as long as no reorganisation fails in the middle (invalid or refused blocks only as
+    children of the best block), the LIB stays on the main chain. *)
+Theorem C08_lib_on_main_chain_partial_f : forall bad ref size self evs,
+  no_failed_reorg bad ref (init_node size self) evs ->
+  lib_on_main (run_f bad ref (init_node size self) evs) = true.
 Proof. exact lib_on_main_chain_partial_f. Qed.
 Print Assumptions C08_lib_on_main_chain_partial_f.
 
 (** Refuted in general (known finding F25): after a reorganisation that fails at block k the LIB
     can be a block of the failed branch, and since nothing was saved it decreases at a restart. *)
 Theorem C08_lib_on_main_chain_failed_reorg_refuted :
-  exists bad size self evs, lib_on_main (run_f bad (init_node size self) evs) = false.
+  exists bad ref size self evs, lib_on_main (run_f bad ref (init_node size self) evs) = false.
 Proof. exact lib_on_main_chain_failed_reorg_refuted. Qed.
 Print Assumptions C08_lib_on_main_chain_failed_reorg_refuted.
 
 Theorem C08_lib_monotone_failed_reorg_refuted :
-  exists bad size self evs,
-    lib_no (step_f bad (run_f bad (init_node size self) evs) FRestart) <
-    lib_no (run_f bad (init_node size self) evs).
+  exists bad ref size self evs,
+    lib_no (step_f bad ref (run_f bad ref (init_node size self) evs) FRestart) <
+    lib_no (run_f bad ref (init_node size self) evs).
 Proof. exact lib_monotone_failed_reorg_refuted. Qed.
 Print Assumptions C08_lib_monotone_failed_reorg_refuted.
+
+(** After an abandoned reorganisation the confirms list is rebuilt from the main chain, wherever the
+    failing block was (below, at or above the old best block's height): Status.Update decides
+    "connected block or rollback target" by the HASH linkage [k_id best = k_prev blk].  For an
+    execution failure this is unconditional (the second Update(old best) starts from a status whose
+    best block is the old best block); for an IsBlockValid refusal the only Update(old best) starts
+    from the last executed branch block (or the branch root), which is the parent of the old best
+    block only when the root is (and then re-extending is correct). *)
+Theorem C08_reorg_failed_confirms_on_main : forall bad ref nd blk,
+  NI nd -> snd (deliver_f bad ref nd blk) = FReorgFailed ->
+  Forall (fun c => onm (nd_main nd) (c_bi c))
+         (ls_confirms (st_ls (nd_st (fst (deliver_f bad ref nd blk))))).
+Proof. exact reorg_failed_confirms_on_main. Qed.
+Print Assumptions C08_reorg_failed_confirms_on_main.
+
+Theorem C08_reorg_refused_confirms_on_main : forall bad ref nd blk,
+  NI nd -> snd (deliver_f bad ref nd blk) = FReorgRefused ->
+  forall root nb, gather (length (blk :: nd_store nd)) (nd_main nd) (blk :: nd_store nd) blk [] = Some (root, nb) ->
+  k_id (last (fst (ok_prefix bad ref nb)) root) <> k_prev (st_best (nd_st nd)) ->
+  Forall (fun c => onm (nd_main nd) (c_bi c))
+         (ls_confirms (st_ls (nd_st (fst (deliver_f bad ref nd blk))))).
+Proof. exact reorg_refused_confirms_on_main. Qed.
+Print Assumptions C08_reorg_refused_confirms_on_main.
 
 (** * Write units: what is saved with the chain tip; crash inside a reorganisation *)
 
